@@ -158,14 +158,21 @@ def replay(path):
         obs = _observe(case, work, fault)
     finally:
         shutil.rmtree(work, ignore_errors=True)
-    res, _ = tlc.oracle("OracleLoaderProc", [D.spec_view(case, id="0", want="c33", devsets=[[]])])
+    devs = sorted({f["deviation"] for f in common.open_findings(PID)})
+    res, _ = tlc.oracle("OracleLoaderProc", [D.spec_view(case, id="0", want="c33", devsets=[[]] + [[d] for d in devs])])
     exp = res["0"]["res"][0]
     for k, v in sorted(case["texts"].items()):
         print(f"--- file {k}\n{v}")
     print("fault:", fault)
     print("observed:", obs)
     print("expected:", exp)
-    return 0 if common.canon(_norm(obs, exp)) == common.canon(exp) else 1
+    if common.canon(_norm(obs, exp)) == common.canon(exp):
+        return 0
+    for d, e in zip(devs, res["0"]["res"][1:]):
+        if common.canon(_norm(obs, e)) == common.canon(e):
+            print(f"explained by the listed deviation {d} (known finding): {e}")
+            return 0
+    return 1
 
 
 META = dict(
